@@ -26,7 +26,7 @@ from datetime import timedelta
 from typing import Any
 
 from hv.clock import patched_time
-from hv.gen import argnames
+from hv.gen import argnames, stacking
 from hv.loop import VClock, run_virtual
 from hv.record import Recorder
 
@@ -261,6 +261,7 @@ def argname_wrappers() -> dict[str, tuple[Any, bool, bool]]:
 def run(R: Recorder, tier: str, seed: int, shard: int, nshards: int) -> None:
     if shard == 0:
         argnames.check(R, "arguments", argname_wrappers())
+        stacking.check_transparent(R, "outcome", "throttle")
     R.flags["exhaustive_core"] = "all gap patterns of <= 5 calls over {0,1/4,1/2,1,5/4,2} periods x limits 1-4 x period forms"
     for i, case in enumerate(exhaustive(tier)):
         if i % nshards == shard:
@@ -273,5 +274,8 @@ def run(R: Recorder, tier: str, seed: int, shard: int, nshards: int) -> None:
 def replay(R: Recorder, case: dict[str, Any]) -> None:
     if "argnames" in case:
         argnames.check(R, "arguments", argname_wrappers(), only=case["argnames"])
+        return
+    if "stacking" in case:
+        stacking.check_transparent(R, "outcome", "throttle", only=case["stacking"])
         return
     run_case(R, case, verbose=True)
